@@ -455,6 +455,12 @@ def self_check(force=False):
         return
     import os
     # 1. own writer -> own reader
+    lng = "a" + "\u00e9" * 70
+    for rr in (5, 6):
+        if prepare_password(rr, lng) != lng.encode("utf-8")[:127] or len(prepare_password(rr, lng)) != 127:
+            raise MachineryError("reference encryptor: R%d password is not truncated to 127 BYTES of its UTF-8 encoding" % rr)
+    if prepare_password(3, "B" * 33) != b"B" * 32 or prepare_password(3, "B" * 31) != b"B" * 31 + PAD[:1]:
+        raise MachineryError("reference encryptor: R3 password is not padded/truncated to 32 bytes")
     assert rc4(b"Key", b"Plaintext").hex() == "bbf316e8d940af0ad3", "RC4 test vector"
     for (V, R, kl, cfm) in [(1, 2, 40, None), (2, 3, 40, None), (2, 3, 128, None), (4, 4, 128, "V2"), (4, 4, 128, "AESV2"),
                             (5, 5, 256, "AESV3"), (5, 6, 256, "AESV3")]:
